@@ -19,9 +19,17 @@ LEVEL = 'topic::TopicFilterLevel'
 
 def extract_valid_dfa(F, R):
     b = F.one(r'^topic::is_valid$')
-    ps = 'topic::is_valid::PrevState'
-    if ps not in F.adts:
-        raise AnchorLost('PrevState enum of is_valid')
+    # the scanner state: the fieldless enum of the topic module whose values are built inside is_valid (`PrevState`; a
+    # refactoring may hoist or rename it, or move the transition table into a method that is spliced back)
+    cands = set()
+    for bi, j, s_ in b.assigns():
+        rv_ = s_['rv']
+        if rv_['k'] == 'agg' and rv_.get('agg') == 'adt' and rv_.get('adt', '').startswith('topic::') and rv_['adt'] in F.adts \
+                and rv_['adt'] not in (LEVEL, 'topic::TopicFilterError') and all(not v_.get('fields') for v_ in F.adts[rv_['adt']]['variants']):
+            cands.add(rv_['adt'])
+    if len(cands) != 1:
+        raise AnchorLost('scanner state enum of is_valid (candidates: %s)' % sorted(cands))
+    ps = cands.pop()
     states = [v['name'] for v in F.adts[ps]['variants']]
     # the iterator next() call and its Some edge
     nxt = [(bi, t) for bi, t in b.calls_to(r'as std::iter::Iterator>::next$')]
@@ -195,6 +203,9 @@ def ev_bool(t, env):
             return ev_val(t[2], env) == ev_val(t[3], env)
         if t[1] == 'Ne':
             return ev_val(t[2], env) != ev_val(t[3], env)
+        if t[1] in ('Gt', 'Lt', 'Ge', 'Le'):
+            a_, b_ = ev_val(t[2], env), ev_val(t[3], env)
+            return {'Gt': a_ > b_, 'Lt': a_ < b_, 'Ge': a_ >= b_, 'Le': a_ <= b_}[t[1]]
         if t[1] == 'BitAnd':
             return ev_bool(t[2], env) and ev_bool(t[3], env)
         if t[1] == 'BitOr':
@@ -356,7 +367,8 @@ def match_tables(F, R):
                 t_other_false = all(v == {0} for k, v in outcome.items() if k != 'MultiWildcard')
                 R.table('match_topic: filter level left when the topic is exhausted -> result', {k: sorted(v) for k, v in outcome.items()})
             ok_tail = t_true and t_mw and t_other_false
-    R.ob('C18.match-table', 'match_topic|end-of-topic: None|# => true, other => false', ok_tail, 'when the topic is exhausted the filter must be exhausted too or continue with `#` (parent level rule)')
+    # (decided semantically by the `step(topic exhausted, ..)` cases of match_loop; the shape found here is kept as a table only)
+    R.note('match_topic tail shape recognised: %s' % ok_tail)
 
 
 def _strip_refs(v):
@@ -526,6 +538,9 @@ def parse_table(F, R):
             return t[1]
         if k == 'call':
             base = t[1]
+            # a test on the whole input (`value.is_empty()`), not on one level of it
+            if t[2] and term_has(t[2][0], 'Deref>::deref') and not term_has(t[2][0], 'split') and not term_has(t[2][0], 'next'):
+                raise Unev(term_str_v(t))
             mm = re.search(r'PartialEq.*::(eq|ne)$', base)
             if mm and len(t[2]) == 2:
                 a0, a1 = _strip_refs(t[2][0]), _strip_refs(t[2][1])
@@ -570,16 +585,44 @@ def parse_table(F, R):
             return env['idx']
         raise Unev(term_str_v(t))
 
+    closure_form = cls is not root
+    if not closure_form:
+        # loop form: the classifier is part of try_from itself (or a helper spliced into it); a path classifies a level when
+        # it builds a TopicFilterLevel or the InvalidLevel error; conditions about other things (iterator state, the whole
+        # input being empty, the final structural validation) are not conditions on the level and are ignored
+        paths = [p for p in SymEx(cls, F, loop_visits=0).run() if p.end[0] in ('return', 'loop')]
+
+    def built_on(p):
+        res = None
+        for bi in p.blocks:
+            for st in cls.blocks[bi]['stmts']:
+                if st['k'] == 'assign' and st['rv']['k'] == 'agg' and st['rv'].get('agg') == 'adt':
+                    if st['rv'].get('adt') == LEVEL:
+                        res = st['rv']['variant']
+                    elif st['rv'].get('adt') == 'topic::TopicFilterError' and st['rv'].get('variant') == 'InvalidLevel':
+                        res = 'Err'
+        return res
+
     def classify(env):
         out = set()
         for p in paths:
             ok = True
             for t, c in p.conds:
-                v = ev(t, env)
+                try:
+                    v = ev(t, env)
+                except Unev:
+                    if closure_form:
+                        raise
+                    continue
                 if (c[0] == 'eq' and v != c[1]) or (c[0] == 'ne' and v in c[1]):
                     ok = False
                     break
             if not ok:
+                continue
+            if not closure_form:
+                b_ = built_on(p)
+                if b_ is not None:
+                    out.add(b_)
                 continue
             r = p.ret
             if r and r[0] == 'agg' and r[2] == 'Err':
@@ -659,8 +702,8 @@ def parse_table(F, R):
     enum_before_map = False
     order = [callee_name(t) or '' for bi, t in sorted(root.calls())]
     names = [o.split('::')[-1] for o in order]
-    if 'enumerate' in names and 'map' in names and 'split' in names:
-        enum_before_map = names.index('split') < names.index('enumerate') < names.index('map')
+    if 'enumerate' in names and 'split' in names:
+        enum_before_map = names.index('split') < names.index('enumerate') and ('map' not in names or names.index('enumerate') < names.index('map'))
         # nothing that renumbers or drops pieces between split and enumerate
         between = names[names.index('split') + 1:names.index('enumerate')]
         enum_before_map = enum_before_map and not [x for x in between if x in ('skip', 'filter', 'rev', 'skip_while', 'step_by', 'take', 'filter_map')]
